@@ -4,6 +4,7 @@ concatenations of encoded fields, `wr` frames, the output stream (`adjust` + `wr
 -/
 import ElfioVerif.Model.Writer
 import ElfioVerif.Lemmas.Records
+import ElfioVerif.Props.C08
 set_option linter.unusedSimpArgs false
 namespace ElfioVerif
 open Gen
@@ -1251,5 +1252,168 @@ theorem tailOs_eq (o : Obj) (os : OStream) (h0 : Bytes) (segs1 : List Seg) (lay 
   rw [foldl_saveSection_eq _ _ _ _ _ _ hs ho, foldl_saveSegment_eq _ _ _ _ _ _ hp, seekp0_write_eq os hg,
     ← applyWrites_append, ← applyWrites_append]
   rfl
+
+/-! ### string table additions as `sections.add` performs them -/
+
+/-- editing a section's data changes only the data buffer, its bookkeeping and the size -/
+def DataFrame (a b : SecBuf) : Prop :=
+  b = { a with data := b.data, dataSize := b.dataSize, size := b.size, streamSize := b.streamSize,
+               isLoaded := b.isLoaded, canLoad := b.canLoad }
+
+theorem DataFrame.refl (a : SecBuf) : DataFrame a a := rfl
+theorem DataFrame.trans {a b c : SecBuf} (h1 : DataFrame a b) (h2 : DataFrame b c) : DataFrame a c := by
+  unfold DataFrame at *
+  rw [h1] at h2
+  exact h2
+
+theorem setSize_dataFrame (b : SecBuf) (v : BitVec 64) : DataFrame b (b.setSize v) := by
+  unfold SecBuf.setSize; split <;> rfl
+
+theorem insertFinish_dataFrame (b : SecBuf) (ns n : BitVec 64) : DataFrame b (b.insertFinish ns n) := by
+  unfold SecBuf.insertFinish
+  simp only
+  split
+  · exact DataFrame.trans (setSize_dataFrame b ns) rfl
+  · exact setSize_dataFrame b ns
+
+theorem loadData_dataFrame (b : SecBuf) : DataFrame b b.loadData.1 := by
+  unfold SecBuf.loadData
+  repeat' split
+  all_goals rfl
+
+theorem getData_dataFrame (b : SecBuf) : DataFrame b b.getData := by
+  unfold SecBuf.getData
+  split
+  · have := loadData_dataFrame b
+    simp only
+    split
+    · exact this
+    · exact DataFrame.trans this rfl
+  · rfl
+
+theorem insertBody_dataFrame {b b' : SecBuf} {pos : BitVec 64} {raw : Bytes}
+    (h : b.insertBody pos raw = .ok b') : DataFrame b b' := by
+  unfold SecBuf.insertBody at h
+  simp only [s32_pos_gt, s32_ovf_size, s32_new_size, s32_fits, ite_self] at h
+  split at h
+  · cases h; rfl
+  · split at h
+    · cases h; rfl
+    · split at h
+      · cases hi : b.insertInPlace pos.toNat raw with
+        | error e => rw [hi] at h; cases h
+        | ok d =>
+          rw [hi] at h
+          simp only [bind, Except.bind, pure, Except.pure] at h
+          cases h
+          have e1 : DataFrame b { b with data := d } := rfl
+          exact DataFrame.trans e1 (insertFinish_dataFrame _ _ _)
+      · split at h
+        · cases h; rfl
+        · rename_i nds _
+          cases hi : b.insertGrow pos.toNat raw nds.toNat with
+          | error e => rw [hi] at h; cases h
+          | ok d =>
+            rw [hi] at h
+            simp only [bind, Except.bind, pure, Except.pure] at h
+            cases h
+            have e1 : DataFrame b { b with data := d, dataSize := nds } := rfl
+            exact DataFrame.trans e1 (insertFinish_dataFrame _ _ _)
+
+theorem appendData_dataFrame {b b' : SecBuf} {raw : Bytes} (h : b.appendData raw = .ok b') : DataFrame b b' := by
+  unfold SecBuf.appendData SecBuf.insertData at h
+  simp only [s32_not_nobits, s32_make_resident, ite_self] at h
+  split at h
+  · cases h; rfl
+  · split at h
+    · exact DataFrame.trans (getData_dataFrame b) (insertBody_dataFrame h)
+    · exact insertBody_dataFrame h
+
+
+theorem ofNat32_toNat (n : Nat) (h : n < 4294967296) : (BitVec.ofNat 32 n).toNat = n := by
+  simp only [BitVec.toNat_ofNat, Nat.reducePow]; omega
+
+theorem takeWhile_ne_eq_cstr (str : Bytes) : str.takeWhile (fun x => decide (x ≠ 0)) = Spec.cstr str := by
+  unfold Spec.cstr
+  congr 1
+  funext x
+  by_cases hx : x = 0 <;> simp [bne, hx]
+
+theorem ok_bind {α β} (a : α) (f : α → M β) : ((Except.ok a : M α) >>= f) = f a := rfl
+
+/-- `add_string` after the seeding step -/
+def addStringTail (b : SecBuf) (cur : BitVec 32) (s : Bytes) : M (SecBuf × BitVec 32) :=
+  if BitVec.ult (4294967295#32 - cur) (BitVec.ofNat 32 (s.length + 1)) then pure (b, 0) else do
+    let b ← b.appendData (s ++ [0])
+    pure (b, cur)
+
+theorem addString_eq (b : SecBuf) (str : Bytes) :
+    addString b str =
+      if (b.size.setWidth 32 : BitVec 32) == 0 then
+        (b.appendData [0]) >>= fun b1 => addStringTail b1 (b.size.setWidth 32 + 1) (Spec.cstr str)
+      else addStringTail b (b.size.setWidth 32) (Spec.cstr str) := by
+  unfold addString addStringTail
+  rw [takeWhile_ne_eq_cstr]
+  by_cases hc : ((b.size.setWidth 32 : BitVec 32) == 0) = true
+  · simp only [hc, if_true, bind_assoc, pure_bind]
+  · simp only [hc, if_false, pure_bind]
+
+theorem addStringTail_ok (b : SecBuf) (hI : b.Inv) (cur : BitVec 32) (s : Bytes)
+    (hc : cur.toNat + s.length + 1 < 4294967296) (hb : b.content.length + s.length + 1 < 4294967296) :
+    ∃ b', addStringTail b cur s = .ok (b', cur) ∧ b'.Resident ∧ DataFrame b b' ∧ b'.content = b.content ++ s ++ [0] := by
+  obtain ⟨b2, e2, r2, c2, v2⟩ := C07.append_refines b hI (s ++ [0])
+    (C08.bound_of_lt32 _ _ (by simp only [List.length_append, List.length_cons, List.length_nil]; omega))
+  have hult : BitVec.ult (4294967295#32 - cur) (BitVec.ofNat 32 (s.length + 1)) = false := by
+    apply C08.g_ovf_false
+    rw [ofNat32_toNat _ (by omega)]; omega
+  unfold addStringTail
+  rw [hult, if_neg (by decide), e2]
+  exact ⟨b2, rfl, r2, appendData_dataFrame e2, by rw [v2, List.append_assoc]⟩
+
+/-- the writer's `add_string` (as `sections.add` uses it) refines the reference string-table
+    addition: same statement as `C08.add_refines`, plus the frame (`DataFrame`) -/
+theorem addString_refines (b : SecBuf) (hI : b.Inv) (str : Bytes)
+    (hb : (Spec.addStr b.content str).1.length < 4294967296) :
+    ∃ b' i, addString b str = .ok (b', i) ∧ b'.Inv ∧ DataFrame b b' ∧
+      b'.content = (Spec.addStr b.content str).1 ∧ i.toNat = (Spec.addStr b.content str).2 := by
+  have hl := C07.content_length hI
+  rw [Spec.addStr_length] at hb
+  have hsz : b.size.toNat < 4294967296 := by rw [← hl]; split at hb <;> omega
+  have hcur : (b.size.setWidth 32).toNat = b.size.toNat := by
+    simp only [BitVec.toNat_setWidth, Nat.reducePow]; omega
+  rw [addString_eq]
+  by_cases h0 : b.content.length = 0
+  · have hs0 : b.size.toNat = 0 := by rw [← hl]; exact h0
+    have hnil : b.content = [] := List.eq_nil_of_length_eq_zero h0
+    have hc0 : (b.size.setWidth 32 == 0) = true := by
+      rw [beq_iff_eq]; apply BitVec.eq_of_toNat_eq; rw [hcur, hs0]; rfl
+    rw [if_pos hc0]
+    obtain ⟨b1, e1, r1, c1, v1⟩ := C07.append_refines b hI [0] (C08.bound_of_lt32 _ _ (by simp [h0]))
+    rw [hnil, List.nil_append] at v1
+    rw [if_pos h0] at hb
+    have hb' : 1 + (Spec.cstr str).length + 1 < 4294967296 := hb
+    have hcur1 : (b.size.setWidth 32 + 1).toNat = 1 := by
+      have h1 : (1 : BitVec 32).toNat = 1 := rfl
+      rw [BitVec.toNat_add, hcur, hs0, h1]
+    obtain ⟨b2, e2, r2, f2, v2⟩ := addStringTail_ok b1 (Or.inl r1) (b.size.setWidth 32 + 1) (Spec.cstr str)
+      (by rw [hcur1]; omega)
+      (by rw [v1]; simp only [List.length_cons, List.length_nil]; omega)
+    rw [e1, ok_bind]
+    refine ⟨b2, _, e2, Or.inl r2, DataFrame.trans (appendData_dataFrame e1) f2, ?_, ?_⟩
+    · rw [v2, v1, Spec.addStr_fst, if_pos h0]
+    · rw [hcur1, Spec.addStr_snd, if_pos h0]; rfl
+  · have hs0 : ¬ b.size.toNat = 0 := by rw [← hl]; exact h0
+    have hc0 : ¬ ((b.size.setWidth 32 == 0) = true) := by
+      rw [beq_iff_eq]; intro e
+      have := congrArg BitVec.toNat e
+      rw [hcur] at this; exact hs0 this
+    rw [if_neg hc0]
+    rw [if_neg h0] at hb
+    obtain ⟨b2, e2, r2, f2, v2⟩ := addStringTail_ok b hI (b.size.setWidth 32) (Spec.cstr str)
+      (by rw [hcur, ← hl]; omega) (by omega)
+    refine ⟨b2, _, e2, Or.inl r2, f2, ?_, ?_⟩
+    · rw [v2, Spec.addStr_fst, if_neg h0]
+    · rw [hcur, Spec.addStr_snd, if_neg h0, hl]
+
 
 end ElfioVerif
